@@ -42,4 +42,5 @@ CONF = dict(
                  'in interleaved form), otherwise its filter is reset once and its first request is in basic form; errNoPath iff nobody can take part; offset = fault-tolerant midpoint '
                  'over the last filter results of the participants that measured something; errNoMeasurement iff none did. rand.intn: result in [0,n) and congruent to the accepted word; rand.sample: min(k,n) slots filled from distinct candidates'),
     timeout_quick=900, timeout_thorough=3000,
+    min_cases={'mp.hist': 900, 'rand.intn': 9000, 'rand.sample': 3000},
 )
